@@ -366,6 +366,26 @@ func runC01(p params) error {
 		}
 		c01AddCase(out, "baseline", c01Input{Stack: st, C: tk.EPConfig{ServerName: "server.test", PMTU: 4000}, S: tk.EPConfig{Ident: "srv", PMTU: 4000}})
 	}
+	// the client's list in every order of two suites (and the four in reverse priority order) against a server that
+	// enables exactly one of them: enabled subsets AND orders decide nothing but membership
+	for _, st := range []string{"tlcp", "dtlcp"} {
+		var lists [][]uint16
+		for _, a := range all {
+			for _, b := range all {
+				if a != b {
+					lists = append(lists, []uint16{a, b})
+				}
+			}
+		}
+		lists = append(lists, []uint16{0xe011, 0xe051, 0xe013, 0xe053}, []uint16{0xe013, 0xe011, 0xe053, 0xe051})
+		for _, l := range lists {
+			for _, su := range l {
+				c01AddCase(out, "client-list-order", c01Input{Stack: st,
+					C: tk.EPConfig{Suites: l, Ident: "cli", ServerName: "server.test", PMTU: 4000},
+					S: tk.EPConfig{Suites: []uint16{su}, Ident: "srv", Auth: 4, PMTU: 4000}})
+			}
+		}
+	}
 	// key pairs by list, by callbacks and mixed, where having both client pairs decides the offer (ECDHE only),
 	// with a session cache so that the pair also connects a second time
 	for _, st := range []string{"tlcp", "dtlcp"} {
